@@ -243,6 +243,23 @@ def native_files_removed(ctx):
     return False, spath, 'held natively'
 
 
+def native_deleted_pins_journal(ctx):
+    """a keyspace with unflushed data in a sealed journal is deleted and its handles are dropped: at the next maintenance the journal goes away and with it the last handle,
+    so the keyspace folder disappears and one journal file is left"""
+    L = ['dir $DIR/db', 'open workers=0', 'rotation_threshold 0', 'ks a', 'ks b', 'insert b 6b31 41', 'insert a 6b31 31', 'rotate a', 'worker_drain', 'journal_count',
+         'delete_ks b', 'insert a 6b32 32', 'rotate a', 'worker_drain', 'journal_count', 'ls $DIR/db/keyspaces', 'close']
+    spath, out = ctx.run_scenario('\n'.join(L) + '\n', tag='deleted-pins-journal')
+    if any(c == 'CRASH' for _i, c, _r in out):
+        return True, spath, 'crash: ' + out[-1][2][-200:]
+    jc = [r for _i, c, r in out if c == 'journal_count']
+    ls = [r for _i, c, r in out if c == 'ls']
+    if len(jc) == 2 and jc[0] == 'n=2' and jc[1] != 'n=1':
+        return True, spath, f'a sealed journal whose only lagging keyspace was deleted is never reclaimed ({jc[1]} journal files after everything else was flushed)'
+    if ls and '2' in ls[0].strip('[]').split(','):
+        return True, spath, f'the folder of the deleted keyspace (id 2) is still there after its last handle was dropped and all other keyspaces were flushed: {ls[0]}'
+    return False, spath, f'held natively (journal files {jc}, keyspace folders {ls})'
+
+
 def check_meta_removed(ctx):
     pat = r'^meta_keyspace::<impl>::remove_keyspace$|MetaKeyspace::remove_keyspace$'
     ob = ctx.ob('delete/meta-removed', 'MetaKeyspace::remove_keyspace: on success a tombstone was ingested for the id->name key (b\'n\' ++ id) and for every '
@@ -626,6 +643,9 @@ def run(ctx):
     check_create_atomic(ctx)
     check_recover_keyspaces(ctx)
     check_recover(ctx)
+    # a deleted keyspace must not pin a sealed journal: the journal's watermark holds a handle, so the keyspace's files would never disappear (C10's reclaim rule, decided here too)
+    from . import c10
+    c10.check_maintenance(ctx, with_evict_rule=False, confirm_reclaim=lambda: native_deleted_pins_journal(ctx))
     for o in ctx.obligations:
         ctx.samples.append(o.as_dict())
     return ctx.finish()
